@@ -188,7 +188,7 @@ def est (m : Mode) (nd : Node) (rn : Nat × Nat) (last : Option Nat) (el : EL) (
 theorem sb_arrB (rules : Rules) (src : Bytes) (m : Mode) (hm : m ≠ .default) (nd : Node) (rn : Nat × Nat) (cs : List Cons)
     (x y : Nat) (hname : Loader.nameOf src.toArray rn = enumName) :
     stepB rules src (bst m .value nd rn cs) ⟨.arrB, x, y⟩
-      = .ok (est m { nd with rules := nd.rules ++ [.inl rn] } rn none .itemOrEnd {} cs) := by
+      = .ok (est m { nd with rules := nd.rules ++ [.inl rn], ruleVals := nd.ruleVals ++ [none] } rn none .itemOrEnd {} cs) := by
   have hn : (Loader.nameOf src.toArray rn == enumName) = true := by rw [hname]; simp
   cases m with
   | default => exact absurd rfl hm
